@@ -14,6 +14,7 @@ import Driver.OpsOpt
 import Driver.OpsFiles
 import Driver.OpsEncI
 import Driver.OpsSeqI
+import Driver.OpsOptDoc
 namespace Mxj.Drv
 
 def dispatch (op : String) (args : List String) : Out :=
@@ -50,6 +51,7 @@ def dispatch (op : String) (args : List String) : Out :=
   | "xfile" => runP opXfile args
   | "xenci" => runP opXenci args
   | "xseqi" => runP opXseqi args
+  | "optdoc" => runP opOptDoc args
   | "jfile" => runP opJfile args
   | "implonly" => "na"
   | _ => "bad-op"
